@@ -87,6 +87,8 @@ Section Invariant.
 Variable w : setup.
 Let g := w_cfg w.
 Let nch := w_nch w.
+(* the shipped rule for the in-process cache: a hit is never served *)
+Hypothesis rt_ignored : w_rt w = RtIgnored.
 
 (* every chunk stored under key h that belongs to a pickle of the current format version is a chunk of the pickle of
    parse g (the content with hash h) *)
@@ -195,13 +197,13 @@ Qed.
 
 Lemma step_inv s l s' : Inv s -> guard s l -> step w s l = Some s' -> Inv s'.
 Proof.
-  intros HI HG Hs. destruct l as [pid|pid|pa c|pid pa lz]; simpl in Hs.
+  intros HI HG Hs. destruct l as [pid|pid|pa c|pid pa lz prev]; simpl in Hs.
   - (* LStep *)
     destruct (procs s pid) as [p|] eqn:Hp; [|discriminate].
     pose proof HI as [HF HP]. pose proof (HP _ _ Hp) as [Hsrc Hpc].
     unfold pstep in Hs. destruct (pr_pc p) eqn:Epc.
     + (* PStart *)
-      destruct (pr_lazy p); inv_some.
+      rewrite rt_ignored in Hs. cbv iota in Hs. destruct (pr_lazy p); inv_some.
       * apply inv_set_proc; auto. split; simpl; auto.
       * apply inv_set_proc; auto. split; simpl; auto.
     + (* PProbe *)
@@ -289,8 +291,12 @@ Proof.
       assert (Hy : updy (yaml s) pa c (pr_path pq) = yaml s (pr_path pq)) by (unfold updy; rewrite E; reflexivity).
       destruct HP as [A B]. unfold procI; simpl. rewrite Hy. split; auto.
   - (* LSpawn *)
-    destruct (procs s pid) eqn:Hp; [discriminate|]. inv_some.
-    apply inv_set_proc; auto. split; simpl; auto.
+    destruct (procs s pid) eqn:Hp; [discriminate|].
+    destruct prev as [q|].
+    + destruct (procs s q) as [pq|]; [|discriminate]. destruct (pr_pc pq); try discriminate.
+      destruct (path_eqb pa (pr_path pq)); [|discriminate]. inv_some.
+      apply inv_set_proc; auto. split; simpl; auto.
+    + inv_some. apply inv_set_proc; auto. split; simpl; auto.
 Qed.
 
 Lemma run_inv ls : forall s s', Inv s -> quiet w s ls -> run w s ls = Some s' -> Inv s'.
@@ -322,7 +328,7 @@ Hypothesis atomic : w_disc w = AtomicRename.
 
 Lemma step_noraise s l s' : Inv s -> NoRaise s -> step w s l = Some s' -> NoRaise s'.
 Proof.
-  intros HI HN Hs. destruct l as [pid|pid|pa c|pid pa lz]; simpl in Hs.
+  intros HI HN Hs. destruct l as [pid|pid|pa c|pid pa lz prev]; simpl in Hs.
   - destruct (procs s pid) as [p|] eqn:Hp; [|discriminate].
     destruct HI as [HF HP]. pose proof (HP _ _ Hp) as [Hsrc Hpc].
     assert (K : forall f c, c <> PRaised ->
@@ -336,7 +342,7 @@ Proof.
       - rewrite updp_same; intro H; inversion H; subst; simpl; auto.
       - rewrite updp_other by auto; apply HN. }
     unfold pstep in Hs. destruct (pr_pc p) eqn:Epc; try discriminate.
-    + destruct (pr_lazy p); inv_some; [apply K2|apply K]; discriminate.
+    + rewrite rt_ignored in Hs. cbv iota in Hs. destruct (pr_lazy p); inv_some; [apply K2|apply K]; discriminate.
     + destruct (files s (probe_loc (pr_path p) home h)); inv_some; apply K; try discriminate.
       destruct home; discriminate.
     + destruct Hpc as [Hex _].
@@ -357,21 +363,27 @@ Proof.
     + rewrite updp_other by auto; apply HN.
   - inv_some. intros q pq; simpl. unfold mark_raced. destruct (procs s q) as [p|] eqn:Hp; [|discriminate].
     specialize (HN _ _ Hp). destruct (path_eqb pa (pr_path p)); intro H; inversion H; subst; simpl; auto.
-  - destruct (procs s pid) eqn:Hp; [discriminate|]. inv_some.
-    intros q pq; simpl. destruct (Nat.eq_dec pid q) as [->|Hne].
-    + rewrite updp_same; intro H; inversion H; subst; simpl; discriminate.
-    + rewrite updp_other by auto; apply HN.
+  - destruct (procs s pid) eqn:Hp; [discriminate|].
+    assert (K : forall x, NoRaise (mkState (yaml s) (files s)
+                 (updp (procs s) pid (Some (mkProc pa lz PStart (yaml s pa) false x))))).
+    { intros x q pq; simpl. destruct (Nat.eq_dec pid q) as [->|Hne].
+      - rewrite updp_same; intro H; inversion H; subst; simpl; discriminate.
+      - rewrite updp_other by auto; apply HN. }
+    destruct prev as [q|].
+    + destruct (procs s q) as [pq|]; [|discriminate]. destruct (pr_pc pq); try discriminate.
+      destruct (path_eqb pa (pr_path pq)); [|discriminate]. inv_some. apply K.
+    + inv_some. apply K.
 Qed.
 
 Hypothesis nch_pos : 0 < nch.
 
 Lemma step_nopartial s l s' : Inv s -> NoPartial s -> step w s l = Some s' -> NoPartial s'.
 Proof.
-  intros HI HN Hs. destruct l as [pid|pid|pa c|pid pa lz]; simpl in Hs.
+  intros HI HN Hs. destruct l as [pid|pid|pa c|pid pa lz prev]; simpl in Hs.
   - destruct (procs s pid) as [p|] eqn:Hp; [|discriminate].
     destruct HI as [HF HP]. pose proof (HP _ _ Hp) as [Hsrc Hpc].
     unfold pstep in Hs. destruct (pr_pc p) eqn:Epc; try discriminate.
-    + destruct (pr_lazy p); inv_some; exact HN.
+    + rewrite rt_ignored in Hs. cbv iota in Hs. destruct (pr_lazy p); inv_some; exact HN.
     + destruct (files s (probe_loc (pr_path p) home h)); inv_some; exact HN.
     + destruct (files s (probe_loc (pr_path p) home h)) as [b|]; [|inv_some; exact HN].
       destruct (decode (w_nch w) b); [destruct (d_iv d =? c_iv (w_cfg w))|destruct (w_disc w)]; inv_some; exact HN.
@@ -395,7 +407,9 @@ Proof.
       unfold updf; rewrite E2; apply HN.
   - destruct (procs s pid) as [p|]; [|discriminate]. destruct (terminal (pr_pc p)); [discriminate|]. inv_some; exact HN.
   - inv_some; exact HN.
-  - destruct (procs s pid); [discriminate|]. inv_some; exact HN.
+  - destruct (procs s pid); [discriminate|]. destruct prev as [q|]; [|inv_some; exact HN].
+    destruct (procs s q) as [pq|]; [|discriminate]. destruct (pr_pc pq); try discriminate.
+    destruct (path_eqb pa (pr_path pq)); [|discriminate]. inv_some; exact HN.
 Qed.
 
 Lemma run_atomic ls : forall s s', Inv s -> quiet w s ls -> run w s ls = Some s' ->
@@ -441,7 +455,7 @@ Proof.
   assert (G : forall c, c <> PRaised -> c <> PCrashed -> (forall x, c <> PDoneLazy x) -> goodpc (pr_lazy p) c)
     by (intros; repeat split; auto).
   destruct (pr_pc p) eqn:Epc; try discriminate; simpl in Ht.
-  - destruct (pr_lazy p) eqn:El.
+  - rewrite rt_ignored. cbv iota. destruct (pr_lazy p) eqn:El.
     + eexists; eexists; split; [reflexivity|]; simpl; rewrite updp_same; split; [reflexivity|]; simpl.
       repeat split; auto; try lia; try discriminate. rewrite El; discriminate.
     + eexists; eexists; split; [reflexivity|]; simpl; rewrite updp_same; split; [reflexivity|]; simpl.
@@ -499,11 +513,11 @@ Lemma later_load_ok s pid pa :
   outcome_of (load w s pid pa false) pid = ODone (parse g (yaml s pa)) /\ Inv (load w s pid pa false).
 Proof.
   intros HI Hn. unfold load, spawn. simpl run_skip. rewrite Hn.
-  set (s1 := mkState (yaml s) (files s) (updp (procs s) pid (Some (mkProc pa false PStart (yaml s pa) false)))).
+  set (s1 := mkState (yaml s) (files s) (updp (procs s) pid (Some (mkProc pa false PStart (yaml s pa) false None)))).
   assert (HI1 : Inv s1).
-  { assert (E : step w s (LSpawn pid pa false) = Some s1) by (simpl; rewrite Hn; reflexivity).
+  { assert (E : step w s (LSpawn pid pa false None) = Some s1) by (simpl; rewrite Hn; reflexivity).
     eapply step_inv; eauto. simpl; auto. }
-  assert (Hp1 : procs s1 pid = Some (mkProc pa false PStart (yaml s pa) false)) by (simpl; apply updp_same).
+  assert (Hp1 : procs s1 pid = Some (mkProc pa false PStart (yaml s pa) false None)) by (simpl; apply updp_same).
   destruct (solo_terminates (fuel_of w) s1 pid _ HI1 Hp1) as [p' [A [B [C [D [E [F [G' H]]]]]]]].
   - simpl. repeat split; discriminate.
   - simpl. unfold fuel_of. fold nch. lia.
@@ -523,7 +537,7 @@ Proof. split; intros *; simpl; discriminate. Qed.
 (* "a later run completes and returns the parse of the current content", whatever happened before *)
 Definition later_run_ok_stmt (disc : discipline) : Prop :=
   forall nch g e rh s0 ls s pid pa, 0 < nch ->
-    let w := mkSetup nch g disc e rh in
+    let w := mkSetup nch g disc e rh RtIgnored in
     Inv w s0 -> quiet w s0 ls -> run w s0 ls = Some s -> procs s pid = None ->
     outcome_of (load w s pid pa false) pid = ODone (parse g (yaml s pa)).
 
@@ -531,21 +545,21 @@ Lemma atomic_later_run_ok : later_run_ok_stmt AtomicRename.
 Proof.
   intros nch g e rh s0 ls s pid pa Hn w HI HQ HR Hp.
   assert (HIs : Inv w s) by (eapply run_inv; eauto).
-  destruct (later_load_ok w eq_refl Hn s pid pa HIs Hp) as [A _]. exact A.
+  destruct (later_load_ok w eq_refl eq_refl Hn s pid pa HIs Hp) as [A _]. exact A.
 Qed.
 
 Definition gI := mkCfg 1 0.
 Definition eI := mkEnv (fun _ => true) true.
-Definition wI := mkSetup 4 gI InPlace eI true.
-Definition wA := mkSetup 4 gI AtomicRename eI true.
+Definition wI := mkSetup 4 gI InPlace eI true RtIgnored.
+Definition wA := mkSetup 4 gI AtomicRename eI true RtIgnored.
 Definition pa0 := mkPath 0 0.
 Definition y0 : path -> content := fun _ => 7.
 
 (* writer 0 dies right after open(..., 'wb') *)
-Definition hist_crash : list label := [LSpawn 0 pa0 false] ++ repeat (LStep 0) 6 ++ [LCrash 0].
+Definition hist_crash : list label := [LSpawn 0 pa0 false None] ++ repeat (LStep 0) 6 ++ [LCrash 0].
 (* no crash at all: reader 1 probes and reads while writer 0 sits between truncate and close *)
 Definition hist_race : list label :=
-  [LSpawn 0 pa0 false] ++ repeat (LStep 0) 8 ++ [LSpawn 1 pa0 false] ++ repeat (LStep 1) 3.
+  [LSpawn 0 pa0 false None] ++ repeat (LStep 0) 8 ++ [LSpawn 1 pa0 false None] ++ repeat (LStep 1) 3.
 
 Lemma quiet_no_edit w ls : forallb (fun l => match l with LEdit _ _ => false | _ => true end) ls = true ->
   forall s, quiet w s ls.
@@ -589,20 +603,20 @@ Proof.
 Qed.
 
 (* an edit between a load's parse and the hash it takes for the write poisons the cache under either discipline *)
-Definition wA1 := mkSetup 1 gI AtomicRename eI true.
+Definition wA1 := mkSetup 1 gI AtomicRename eI true RtIgnored.
 Definition hist_edit_race : list label :=
-  [LSpawn 0 pa0 false] ++ repeat (LStep 0) 4 ++ [LEdit pa0 8] ++ repeat (LStep 0) 5 ++
-  [LSpawn 1 pa0 false] ++ repeat (LStep 1) 3.
+  [LSpawn 0 pa0 false None] ++ repeat (LStep 0) 4 ++ [LEdit pa0 8] ++ repeat (LStep 0) 5 ++
+  [LSpawn 1 pa0 false None] ++ repeat (LStep 1) 3.
 
 Definition refines_stmt (guarded : bool) : Prop :=
-  forall w s0 ls s pid p d,
+  forall w s0 ls s pid p d, w_rt w = RtIgnored ->
     Inv w s0 -> (if guarded then quiet w s0 ls else True) -> run w s0 ls = Some s ->
     procs s pid = Some p -> pr_pc p = PDone d ->
     d = parse (w_cfg w) (pr_src p) /\ (pr_raced p = false -> d = parse (w_cfg w) (yaml s (pr_path p))).
 
 Lemma refines_guarded : refines_stmt true.
 Proof.
-  intros w s0 ls s pid p d HI HQ HR Hp Hd. eapply done_is_parse; eauto. eapply run_inv; eauto.
+  intros w s0 ls s pid p d Hrt HI HQ HR Hp Hd. eapply done_is_parse; eauto. eapply run_inv; eauto.
 Qed.
 
 Lemma refines_unguarded_refuted : ~ refines_stmt false.
@@ -610,9 +624,9 @@ Proof.
   intro H.
   assert (E : run wA1 (empty_state y0) hist_edit_race = Some (run_skip wA1 (empty_state y0) hist_edit_race))
     by (vm_compute; reflexivity).
-  set (p1 := mkProc pa0 false (PDone (mkData 1 0 7)) 8 false).
+  set (p1 := mkProc pa0 false (PDone (mkData 1 0 7)) 8 false None).
   assert (Hp : procs (run_skip wA1 (empty_state y0) hist_edit_race) 1 = Some p1) by (vm_compute; reflexivity).
-  destruct (H wA1 (empty_state y0) hist_edit_race _ 1 p1 (mkData 1 0 7) (Inv_empty _ _) I E Hp eq_refl) as [_ K].
+  destruct (H wA1 (empty_state y0) hist_edit_race _ 1 p1 (mkData 1 0 7) eq_refl (Inv_empty _ _) I E Hp eq_refl) as [_ K].
   specialize (K eq_refl). vm_compute in K. discriminate.
 Qed.
 
@@ -645,8 +659,8 @@ Lemma lazy_load w s pid pa :
   files (load w s pid pa true) = files s /\ outcome_of (load w s pid pa true) pid = OLazy (yaml s pa).
 Proof.
   intro Hn. unfold load, spawn. cbn [run_skip step]. rewrite Hn.
-  set (s1 := mkState (yaml s) (files s) (updp (procs s) pid (Some (mkProc pa true PStart (yaml s pa) false)))).
-  destruct (lazy_step w s1 pid (mkProc pa true PStart (yaml s pa) false)) as [s' [A [B [C D]]]];
+  set (s1 := mkState (yaml s) (files s) (updp (procs s) pid (Some (mkProc pa true PStart (yaml s pa) false None)))).
+  destruct (lazy_step w s1 pid (mkProc pa true PStart (yaml s pa) false None)) as [s' [A [B [C D]]]];
     [simpl; apply updp_same | reflexivity | reflexivity |].
   unfold fuel_of. change (12 + w_nch w) with (S (11 + w_nch w)). cbn [solo]. rewrite A. rewrite solo_terminal by (rewrite D; reflexivity).
   split; [rewrite B; reflexivity|]. unfold outcome_of; rewrite D. reflexivity.
@@ -654,8 +668,8 @@ Qed.
 
 (* non-vacuity: a guarded history with a cold load, a warm load served from the cache, an edit and a reload *)
 Definition hist_demo : list label :=
-  [LSpawn 0 pa0 false] ++ repeat (LStep 0) 12 ++ [LSpawn 1 pa0 false] ++ repeat (LStep 1) 3 ++
-  [LEdit pa0 8; LSpawn 2 pa0 false] ++ repeat (LStep 2) 12.
+  [LSpawn 0 pa0 false None] ++ repeat (LStep 0) 12 ++ [LSpawn 1 pa0 false None] ++ repeat (LStep 1) 3 ++
+  [LEdit pa0 8; LSpawn 2 pa0 false None] ++ repeat (LStep 2) 12.
 
 Lemma demo_history :
   exists s, Inv wA (empty_state y0) /\ quiet wA (empty_state y0) hist_demo /\
@@ -679,19 +693,19 @@ Proof.
 Qed.
 
 Definition refines_full_stmt : Prop :=
-  forall w s0 ls s pid p d, w_rehash w = false ->
+  forall w s0 ls s pid p d, w_rt w = RtIgnored -> w_rehash w = false ->
     Inv w s0 -> run w s0 ls = Some s -> procs s pid = Some p -> pr_pc p = PDone d ->
     d = parse (w_cfg w) (pr_src p) /\ (pr_raced p = false -> d = parse (w_cfg w) (yaml s (pr_path p))).
 
 Lemma refines_full : refines_full_stmt.
 Proof.
-  intros w s0 ls s pid p d Hr HI HR Hp Hd. eapply refines_guarded; eauto. simpl. apply quiet_no_rehash; auto.
+  intros w s0 ls s pid p d Hrt Hr HI HR Hp Hd. eapply refines_guarded; eauto. simpl. apply quiet_no_rehash; auto.
 Qed.
 
 (* the repaired code: temp file + rename, unreadable = miss, key = hash of the parsed bytes *)
 Lemma current_code_later_run_ok :
   forall nch g e s0 ls s pid pa, 0 < nch ->
-    let w := mkSetup nch g AtomicRename e false in
+    let w := mkSetup nch g AtomicRename e false RtIgnored in
     Inv w s0 -> run w s0 ls = Some s -> procs s pid = None ->
     outcome_of (load w s pid pa false) pid = ODone (parse g (yaml s pa)).
 Proof.
@@ -701,20 +715,97 @@ Qed.
 
 Lemma current_code_safe :
   forall nch g e s0 ls s, 0 < nch ->
-    let w := mkSetup nch g AtomicRename e false in
+    let w := mkSetup nch g AtomicRename e false RtIgnored in
     Inv w s0 -> run w s0 ls = Some s ->
     Inv w s /\ (NoRaise s0 -> NoRaise s) /\ (NoPartial w s0 -> NoPartial w s).
 Proof.
   intros nch g e s0 ls s Hn w HI HR.
   pose proof (quiet_no_rehash w ls eq_refl s0) as HQ.
-  split; [eapply run_inv; eauto|]. exact (run_atomic w eq_refl Hn ls s0 s HI HQ HR).
+  split; [eapply run_inv; eauto|]. exact (run_atomic w eq_refl eq_refl Hn ls s0 s HI HQ HR).
 Qed.
 
 (* the history that poisons the cache of re-hashing code is harmless here: the racing load stores parse 7 under key 7,
    the later load of the edited file parses content 8 *)
-Definition wA1n := mkSetup 1 gI AtomicRename eI false.
+Definition wA1n := mkSetup 1 gI AtomicRename eI false RtIgnored.
 Lemma edit_race_harmless_without_rehash :
   let s := run_skip wA1n (empty_state y0) (hist_edit_race ++ repeat (LStep 1) 12) in
   outcome_of s 0 = ODone (parse gI 7) /\ outcome_of s 1 = ODone (parse gI 8) /\
   observe wA1n s (Comp 0 0 7) = OComplete (parse gI 7) /\ observe wA1n s (Comp 0 0 8) = OComplete (parse gI 8).
+Proof. repeat split; vm_compute; reflexivity. Qed.
+
+(* ------------------------------------------------------------------ the in-process cache *)
+Lemma spawn_shape w s pid pa lz prev s1 :
+  step w s (LSpawn pid pa lz prev) = Some s1 ->
+  exists x, s1 = mkState (yaml s) (files s) (updp (procs s) pid (Some (mkProc pa lz PStart (yaml s pa) false x))).
+Proof.
+  simpl. destruct (procs s pid); [discriminate|]. destruct prev as [q|].
+  - destruct (procs s q) as [pq|]; [|discriminate]. destruct (pr_pc pq); try discriminate.
+    destruct (path_eqb pa (pr_path pq)); [|discriminate]. intro H; inversion H; eexists; reflexivity.
+  - intro H; inversion H; eexists; reflexivity.
+Qed.
+
+Lemma spawned_load_ok w s pid pa prev s1 :
+  w_rt w = RtIgnored -> w_disc w = AtomicRename -> 0 < w_nch w ->
+  Inv w s -> step w s (LSpawn pid pa false prev) = Some s1 ->
+  outcome_of (solo w (fuel_of w) s1 pid) pid = ODone (parse (w_cfg w) (yaml s pa)).
+Proof.
+  intros Hrt Ha Hn HI Hs.
+  assert (HI1 : Inv w s1) by (eapply step_inv; eauto; simpl; auto).
+  destruct (spawn_shape _ _ _ _ _ _ _ Hs) as [x ->].
+  set (s1 := mkState (yaml s) (files s) (updp (procs s) pid (Some (mkProc pa false PStart (yaml s pa) false x)))) in *.
+  assert (Hp1 : procs s1 pid = Some (mkProc pa false PStart (yaml s pa) false x)) by (simpl; apply updp_same).
+  destruct (solo_terminates w Hrt Ha Hn (fuel_of w) s1 pid _ HI1 Hp1) as [p' [A [B [C [D [E [F [G' H]]]]]]]].
+  - simpl. repeat split; discriminate.
+  - simpl. unfold fuel_of. lia.
+  - unfold outcome_of, pc_of. rewrite A.
+    simpl in E, F, G'. destruct D as [D1 [D2 D3]].
+    destruct (pr_pc p') eqn:Epc; simpl in C; try discriminate; try contradiction.
+    + destruct (done_is_parse w _ _ _ _ B A Epc) as [_ K]. rewrite (K G'), E, H. reflexivity.
+    + exfalso; eapply D3; eauto.
+Qed.
+
+(* a load in an OS process that already loaded the same path -- its _runtime_cache holds the data dq of that earlier
+   load, which may belong to an older content of the file -- returns the parse of the CURRENT content *)
+Definition inproc_stmt (rt : rtmode) : Prop :=
+  forall nch g e rh s0 ls s pid pa q pq dq, 0 < nch ->
+    let w := mkSetup nch g AtomicRename e rh rt in
+    Inv w s0 -> quiet w s0 ls -> run w s0 ls = Some s ->
+    procs s pid = None -> procs s q = Some pq -> pr_pc pq = PDone dq -> pr_path pq = pa ->
+    outcome_of (loadp w s pid pa false (Some q)) pid = ODone (parse g (yaml s pa)).
+
+Lemma inproc_ignored : inproc_stmt RtIgnored.
+Proof.
+  intros nch g e rh s0 ls s pid pa q pq dq Hn w HI HQ HR Hp Hq Hd Hpa.
+  assert (HIs : Inv w s) by (eapply run_inv; eauto).
+  assert (Hpe : path_eqb pa (pr_path pq) = true) by (apply path_eqb_eq; auto).
+  unfold loadp. cbn [run_skip].
+  assert (E : step w s (LSpawn pid pa false (Some q)) =
+              Some (mkState (yaml s) (files s) (updp (procs s) pid (Some (mkProc pa false PStart (yaml s pa) false (Some dq)))))).
+  { simpl. rewrite Hp, Hq, Hd, Hpe. reflexivity. }
+  rewrite E. apply (spawned_load_ok w s pid pa (Some q) _ eq_refl eq_refl Hn HIs E).
+Qed.
+
+(* the variant that serves _runtime_cache[path]: load, edit, load again in the same process returns the old data *)
+Definition wS := mkSetup 4 gI AtomicRename eI false RtServed.
+Definition hist_inproc : list label := [LSpawn 0 pa0 false None] ++ repeat (LStep 0) 12 ++ [LEdit pa0 8].
+
+Lemma inproc_served_refuted : ~ inproc_stmt RtServed.
+Proof.
+  intro H.
+  assert (E : run wS (empty_state y0) hist_inproc = Some (run_skip wS (empty_state y0) hist_inproc))
+    by (vm_compute; reflexivity).
+  set (p0 := mkProc pa0 false (PDone (mkData 1 0 7)) 7 true None).
+  assert (Hq : procs (run_skip wS (empty_state y0) hist_inproc) 0 = Some p0) by (vm_compute; reflexivity).
+  specialize (H 4 gI eI false (empty_state y0) hist_inproc _ 1 pa0 0 p0 (mkData 1 0 7) ltac:(lia)
+                (Inv_empty _ _) (quiet_no_rehash wS _ eq_refl _) E eq_refl Hq eq_refl eq_refl).
+  vm_compute in H. discriminate.
+Qed.
+
+(* the same history under the shipped rule *)
+Lemma inproc_demo :
+  let wN := mkSetup 4 gI AtomicRename eI false RtIgnored in
+  let s := run_skip wN (empty_state y0) hist_inproc in
+  outcome_of s 0 = ODone (parse gI 7) /\ yaml s pa0 = 8 /\
+  outcome_of (loadp wN s 1 pa0 false (Some 0)) 1 = ODone (parse gI 8) /\
+  outcome_of (loadp wS s 1 pa0 false (Some 0)) 1 = ODone (parse gI 7).
 Proof. repeat split; vm_compute; reflexivity. Qed.
